@@ -32,6 +32,46 @@ CLAIMS = {
          "repeated and extreme updates compared bit-exactly with fresh problems; all small shapes for the uninitialised matrices",
          TB + "trait contract faulty_functional", "§6 C10"),
 }
+
+NUM = ("Coq 8.16.1 kernel + vm_compute; no axioms; MathComp 1.15 (axiom-free); exact rationals = stdlib Qc with MathComp structures "
+       "(coq/Base/QcField.v); the acceptance predicates of Model/Numeric.v are evaluated on the implementation's outputs with a stated "
+       "rounding margin (64 u kappa2 sqrt(N M)); nalgebra's SVD / inverse are oracles with the contract svd_spec; ")
+CLAIMS.update({
+ "C01": ("proof", "theorems: the specification's coefficients minimise ||W(y_s - Phi c)|| for every right-hand side and are unique (C01_optimal, "
+         "C01_unique), linear in the data; the implementation's truncated-SVD formula is optimal / minimum-norm for the truncated matrix for any "
+         "orthonormal SVD factors and threshold (C01_svd_*), and equals the specification under full rank (C01_svd_is_lsq); correspondence: "
+         "coefficients at construction and after updates compared in exact rational arithmetic with the certified least-squares solution",
+         NUM + "rank-deficient inputs are covered by the theorems and by finiteness checks, not by value comparison", "§6 C01"),
+ "C02": ("proof", "residual = column stacking of W(Y - Phi C) (C02_residual, C02_layout), weights exactly once (C02_weighted_once, C02_weighted_data), "
+         "one coherent state for every history (C02_one_state); correspondence: residuals vs exact spec, weighted data bit-exact, best fit vs "
+         "Phi(alpha^) C^ in exact arithmetic, shapes, reported parameters", NUM, "§6 C02"),
+ "C03": ("proof", "Kaufman column = -(I-P) W D_k C, orthogonal to range(W Phi), implementation formula U(U^T V) - V equals it under full rank "
+         "(C03_formula, C03_svd_kaufman, C03_orthogonal), algebraic first-order identity (C03_gradient), None iff a derivative failed, never "
+         "partial; correspondence: every Jacobian column vs exact spec for shared-parameter models, 1-6 right-hand sides, all weights; "
+         "failing derivative at every index", NUM + "differentiability of alpha -> C(alpha) (Golub-Pereyra) not formalised", "§6 C03"),
+ "C04": ("proof", "for EVERY script of accepted/rejected steps and every (failing) model: fit = Ok iff termination successful (table regenerated from "
+         "the linked crate each run), final problem coherent and at the parameters the objective belongs to, objective never above the initial "
+         "one given the optimizer's acceptance contract, evaluation budget (C04_*); correspondence: recorded optimizer runs replayed as scripts "
+         "through Model/LMDriver.v, final state bit-exact vs fresh problem, objective identities on the implementation's numbers",
+         TB + "levenberg-marquardt 0.14's numerical decisions are an oracle whose call pattern is validated on every recorded run", "§6 C04"),
+ "C06": ("proof", "weights = left multiplication by diag(w); the weighted problem is definitionally the row-scaled unweighted problem for "
+         "coefficients, residuals, Jacobian (C06_coeffs/resid/jac), unit weights = none, zero weight removes a sample (C06_zero_*); "
+         "correspondence: weighted problem vs row-scaled twin BIT-EXACT incl. whole fits, unit vs none bit-exact, zero weights vs garbage data, "
+         "all vs exact spec", NUM, "§6 C06"),
+ "C07": ("proof", "per-column structure of coefficients, residual blocks, Jacobian blocks, permutation of columns (C07_*); correspondence: S-column "
+         "problems next to their S single-column problems and a permuted copy, all vs the exact spec; S = 1 bit-exact", NUM, "§6 C07"),
+ "C12": ("proof", "no panic in any build profile for any N, M, P (C12_no_panic; the pinned order is refuted: C12_pinned_refuted), Ok => N > M+P and "
+         "dof = N-M-P, Err in all listed cases (C12_ok, C12_err), identities of the specification (C12_identities); correspondence: complete "
+         "enumeration N in 1..9 x (M,P) in dev AND release builds, outcome vs model, values vs exact arithmetic",
+         NUM + "usize = 64 bit", "§6 C12"),
+ "C13": ("proof", "Cov = chi^2 (H^T H)^-1 with H = W[Phi | D_k c], ordering, symmetry, non-negative diagonal, Cauchy-Schwarz (C13_*); correspondence: "
+         "defining equation (H^T H) Cov = chi^2 1 evaluated in exact arithmetic on the implementation's covariance, accessors, correlation",
+         NUM + "ill-conditioned normal matrices (kappa > 1e6) are not compared", "§6 C13"),
+ "C14": ("proof", "sigma_i^2 = j_i^T Cov j_i with unweighted rows, non-negative, size N, monotone in p given a monotone quantile (C14_*); "
+         "correspondence: radius = t * sigma_i exactly, t cross-checked against an independent Student-t evaluation, dof 1..8, accepted and "
+         "rejected probabilities", NUM + "distrs::StudentsT::ppf as the quantile (accurate to ~1e-5)", "§6 C14"),
+})
+
 NA = {
  "C19": "statement about the probability distribution of fit results; no measure/probability theory is installed for Coq 8.16 here and "
         "Monte-Carlo estimation is testing, not proof (DESIGN.md §6 C19)",
